@@ -49,7 +49,7 @@ def mutate_list(pat, l, rng):
 def worker(sh):
     rng = sh.rng
     sc = wkd.Script(rng)
-    l = [3, 3, 3, 3, 1, 2, 4, 5, 33, 8, 8, 65, 12, 20, 6, 3][sh.index]
+    l = [3, 3, 3, 3, 1, 2, 4, 5, 33, 8, 8, 65, 257, 20, 6, 3][sh.index]
     sig = sh.index % 2 == 1
     sc.setup(0, l, sig)
     keys = []
